@@ -56,7 +56,7 @@ func (p *c29Prop) Extract(ctx context.Context, headers nethttp.Header) (context.
 	return context.WithValue(ctx, c29RestoredKey{}, got), nil
 }
 
-var c29Sizes = []int{0, 1, 7, 255, 256, 4096, 65535}
+var c29Sizes = []int{0, 1, 7, 255, 256, 1024, 4096}
 
 // c29Headers is the header set named by a message: spec = "none" or "<nExtra>.<sizeIndex>".
 func c29Headers(tag string, caller, seq int, spec string) map[string]string {
@@ -64,6 +64,10 @@ func c29Headers(tag string, caller, seq int, spec string) map[string]string {
 		return nil
 	}
 	h := map[string]string{"X-Verif": "tok-" + tag + "-" + strconv.Itoa(caller) + "-" + strconv.Itoa(seq)}
+	if spec == "big" { // the largest value the ask path's 16-bit length prefix can express
+		h["X-E0"] = c29Value(caller, seq, 0, 65535)
+		return h
+	}
 	if strings.HasPrefix(spec, "over.") { // one value of exactly the named size
 		size, _ := strconv.Atoi(spec[5:])
 		h["X-E0"] = c29Value(caller, seq, 0, size)
@@ -206,7 +210,7 @@ func (s c29Script) String() string {
 type c29Obs struct {
 	Handled, Bad, Inherit, WithHeaders int64
 	Tells, Asks, BatchTells, BatchAsks int64
-	AskErrors                          int64
+	AskErrors, DeadLettered            int64
 	Frames                             int64
 	Wit                                []string
 	Nontrivial                         bool
@@ -238,6 +242,10 @@ func c29RunCase(e *c27Env, s c29Script, seed int64) (obs c29Obs) {
 	b.Proxy.Arm(nil)
 	frames0 := b.Proxy.ReqFwd.Load()
 	from := a.Sys.NoSender()
+	// a coalesced batch that fails as a whole (e.g. it exceeds the peer's frame limit) is
+	// dead-lettered on A; those tells never reach a handler and are not expected there
+	dls := c27CollectDeadLetters(t, a.Sys)
+	defer dls.Close()
 	var expected, tells, asks, btells, basks, askErrs atomic.Int64
 	var wg sync.WaitGroup
 	for c := 0; c < s.Callers; c++ {
@@ -249,6 +257,9 @@ func c29RunCase(e *c27Env, s c29Script, seed int64) (obs c29Obs) {
 				spec := "none"
 				if rng.Intn(100) >= s.NonePct {
 					spec = strconv.Itoa(rng.Intn(s.MaxExtra+1)) + "." + strconv.Itoa(rng.Intn(len(c29Sizes)))
+					if rng.Intn(100) < 3 {
+						spec = "big"
+					}
 				}
 				ctx := bg
 				if h := c29Headers(tag, c, seq, spec); h != nil {
@@ -298,9 +309,10 @@ func c29RunCase(e *c27Env, s c29Script, seed int64) (obs c29Obs) {
 		}(c)
 	}
 	wg.Wait()
-	if !verifrt.WaitUntil(90*time.Second, func() bool { return led.handled.Load() >= expected.Load() }) {
-		obs.Inconclusive = fmt.Sprintf("only %d of %d accepted operations reached a handler within 90s over a fault-free proxy", led.handled.Load(), expected.Load())
+	if !verifrt.WaitUntil(90*time.Second, func() bool { return led.handled.Load()+dls.Total() >= expected.Load() }) {
+		obs.Inconclusive = fmt.Sprintf("only %d handled + %d dead-lettered of %d accepted operations within 90s over a fault-free proxy", led.handled.Load(), dls.Total(), expected.Load())
 	}
+	obs.DeadLettered = dls.Total()
 	obs.Handled, obs.Bad, obs.Inherit, obs.WithHeaders = led.handled.Load(), led.bad.Load(), led.inherit.Load(), led.withHdrs.Load()
 	obs.Tells, obs.Asks, obs.BatchTells, obs.BatchAsks, obs.AskErrors = tells.Load(), asks.Load(), btells.Load(), basks.Load(), askErrs.Load()
 	obs.Frames = b.Proxy.ReqFwd.Load() - frames0
@@ -345,14 +357,14 @@ func c29Oversize(e *c27Env) (bad int64, wit []string, errs int64, handled int64)
 func TestVerif_C29(t *testing.T) {
 	r := verifrt.Start(t, "C29")
 	defer r.Finish()
-	r.Rule("case = 2-16 concurrent callers x 30-120 operations (coalesced Tell 60%, Ask 20%, BatchTell 10%, BatchAsk 10%) to 1-3 actors on a second actor system; each operation's context names a header set (token + 0-20 extra headers with value sizes in {0,1,7,255,256,4096,65535}) or none at all; a harness ContextPropagator injects it and stores every header it is handed on the receiver; oracle = the handler's restored headers equal the set the handled message names (a header-less message must not see anybody's headers); non-trivial = >=2 callers, some operations with headers, and coalesced tells that shared request frames; distinct by script and seed")
+	r.Rule("case = 2-16 concurrent callers x 20-60 operations (coalesced Tell 60%, Ask 20%, BatchTell 10%, BatchAsk 10%) to 1-3 actors on a second actor system; each operation's context names a header set (token + 0-20 extra headers with value sizes in {0,1,7,255,256,1024,4096}, 3% with one 65535-byte value) or none at all; a harness ContextPropagator injects it and stores every header it is handed on the receiver; oracle = the handler's restored headers equal the set the handled message names (a header-less message must not see anybody's headers); non-trivial = >=2 callers, some operations with headers, and coalesced tells that shared request frames; distinct by script and seed")
 	rng := r.Rand(29)
 	n := r.N(30, 600)
 	prop := &c29Prop{}
 	env := &c27Env{t: t, cfg: func() []remote.Option { return []remote.Option{remote.WithContextPropagator(prop)} }}
 	defer env.Close()
 	for i := 0; i < n; i++ {
-		s := c29Script{Callers: 2 + rng.Intn(15), PerCall: 30 + rng.Intn(91), Targets: 1 + rng.Intn(3),
+		s := c29Script{Callers: 2 + rng.Intn(15), PerCall: 20 + rng.Intn(41), Targets: 1 + rng.Intn(3),
 			NonePct: []int{0, 20, 50}[rng.Intn(3)], MaxExtra: []int{0, 3, 20}[rng.Intn(3)]}
 		seed := rng.Int63()
 		obs := c29RunCase(env, s, seed)
@@ -369,6 +381,7 @@ func TestVerif_C29(t *testing.T) {
 		r.Count("batch_tells", obs.BatchTells)
 		r.Count("batch_asks", obs.BatchAsks)
 		r.Count("ask_errors", obs.AskErrors)
+		r.Count("tells_dead_lettered_on_sender", obs.DeadLettered)
 		r.Count("request_frames", obs.Frames)
 		detail := map[string]any{"script": key, "seed": seed, "obs": obs}
 		if obs.Bad > obs.Inherit {
